@@ -791,7 +791,6 @@ impl<'a, SE: extensions::ShellExtensions> WordExpander<'a, SE> {
 
         let result = braceexpansion::generate_and_combine_brace_expansions(brace_expansion_pieces)
             .into_iter()
-            .map(|s| if s.is_empty() { "\"\"".into() } else { s })
             .join(" ");
 
         Ok(result.into())
